@@ -7,7 +7,7 @@ import numpy as np
 from hypothesis import strategies as st
 
 from .. import gen, model, schema
-from ..core import Ctx, Violation, call, check, must_raise, per_shard, run_given
+from ..core import Ctx, Violation, call, check, must_raise, per_shard, run_given, given_part, machine_part, run_parts
 
 PID = "C07"
 LEVEL = "exploration"
@@ -358,11 +358,10 @@ def replay(ctx: Ctx, case):
 
 def run(ctx: Ctx):
     q = ctx.tier == "quick"
-    if not run_given(ctx, "merge", merge_cases(), check_merge, per_shard(ctx, 640 if q else 24000), batch=40):
-        return
-    if not run_given(ctx, "incompatible", incompatible_cases(), check_incompatible, per_shard(ctx, 200 if q else 4000), batch=25):
-        return
-    if not run_given(ctx, "limit", limit_cases(), check_limit, per_shard(ctx, 80 if q else 1600), batch=20):
-        return
+    parts = []
+    parts.append(given_part(ctx, "merge", merge_cases(), check_merge, per_shard(ctx, 640 if q else 24000), batch=40))
+    parts.append(given_part(ctx, "incompatible", incompatible_cases(), check_incompatible, per_shard(ctx, 200 if q else 4000), batch=25))
+    parts.append(given_part(ctx, "limit", limit_cases(), check_limit, per_shard(ctx, 80 if q else 1600), batch=20))
     if not q:
-        run_given(ctx, "merge-wide", merge_cases(5, 9), check_merge, per_shard(ctx, 12000), batch=40)
+        parts.append(given_part(ctx, "merge-wide", merge_cases(5, 9), check_merge, per_shard(ctx, 12000), batch=40))
+    run_parts(ctx, parts)
